@@ -215,7 +215,7 @@ unsafe fn interfere() {
 
 // ---- stubs for the only two functions through which the shared word is read-modify-written ----
 
-fn cas_stub(
+pub(crate) fn cas_stub(
     this: &SharedPacked,
     current: Packed,
     new: Packed,
@@ -678,7 +678,7 @@ impl Clone for Pay {
     }
 }
 
-fn enqueue_stub<T: ?Sized + 'static>(_value: &BiasedRc<T>) {
+pub(crate) fn enqueue_stub<T: ?Sized + 'static>(_value: &BiasedRc<T>) {
     unsafe {
         G.enqueued += 1;
     }
